@@ -68,3 +68,30 @@ Proof.
     destruct (plainA_total sg _ (bm_obj m BM)) as [w [_ Ew]]. exists sg, w. split; [exact SM|]. split; [exact Ew|].
     pose proof (Hrel w Ew) as R1. destruct (m_dir m); cbn in *; try lra; exact Hb.
 Qed.
+
+(* ---- the same on the affine fragment, where the two feasible sets are equal and the objectives agree pointwise *)
+Corollary compile_affine_feasible_iff m L : affine_model m -> compile m = inr L ->
+  ((exists rho, sat_model m rho) <-> (exists sigma, sat_linear L sigma)).
+Proof.
+  intros AM HC. destruct (compile_affine_equiv m L AM HC) as [Eq _].
+  split; intros [rho H]; exists rho; apply Eq; exact H.
+Qed.
+Corollary compile_affine_unbounded_iff m L : affine_model m -> compile m = inr L ->
+  (src_unbounded m <-> lin_unbounded (m_dir m) L).
+Proof.
+  intros AM HC. destruct (compile_affine_equiv m L AM HC) as [Eq Ob]. split.
+  - intros U K. destruct (U K) as [rho [w [SM [Ew Hb]]]]. exists rho. split; [apply Eq; exact SM|]. rewrite (Ob rho w Ew). exact Hb.
+  - intros U K. destruct (U K) as [sigma [SL Hb]]. destruct (plain_total sigma _ (am_plain_o m AM)) as [w [_ Ew]].
+    exists sigma, w. split; [apply Eq; exact SL|]. split; [exact Ew|]. rewrite <- (Ob sigma w Ew). exact Hb.
+Qed.
+Corollary compile_affine_optimal_value m L v : affine_model m -> compile m = inr L ->
+  (src_optimum m v <-> lin_optimum (m_dir m) L v).
+Proof.
+  intros AM HC. destruct (compile_affine_equiv m L AM HC) as [Eq Ob]. split.
+  - intros [[rho [SM Ev]] Opt]. split; [exists rho; split; [apply Eq; exact SM|exact (Ob rho v Ev)]|].
+    intros tau SLt. destruct (plain_total tau _ (am_plain_o m AM)) as [w [_ Ew]]. rewrite (Ob tau w Ew). apply (Opt tau w); [apply Eq; exact SLt|exact Ew].
+  - intros [[sigma [SL Vs]] Best]. destruct (plain_total sigma _ (am_plain_o m AM)) as [w [_ Ew]].
+    assert (w = v) by (rewrite <- (Ob sigma w Ew); exact Vs). subst w.
+    split; [exists sigma; split; [apply Eq; exact SL|exact Ew]|].
+    intros rho w SM Ew'. rewrite <- (Ob rho w Ew'). apply Best. apply Eq. exact SM.
+Qed.
